@@ -46,7 +46,10 @@ type Op struct {
 type Case struct {
 	Exec string `json:"exec"` // local | bigmachine
 	MC   bool   `json:"machine_combiners"`
-	Ops  []Op   `json:"ops"`
+	// One: a cluster of a single machine (parallelism = one machine's procs), so that whatever is
+	// recomputed after a Discard returns to the worker that computed it before.
+	One bool `json:"one_machine,omitempty"`
+	Ops []Op `json:"ops"`
 }
 
 type result struct {
@@ -388,7 +391,11 @@ func runCase(c Case) (err error) {
 		s.sys.KeepaliveTimeout = 2 * time.Second
 		s.sys.KeepaliveRpcTimeout = time.Second
 		s.sys.Relax()
-		opts := []exec.Option{exec.Bigmachine(s.sys), exec.Parallelism(4)}
+		par := 4
+		if c.One {
+			par = 2
+		}
+		opts := []exec.Option{exec.Bigmachine(s.sys), exec.Parallelism(par)}
 		if c.MC {
 			opts = append(opts, exec.MachineCombiners)
 		}
@@ -444,6 +451,7 @@ func genCase(t *rapid.T) Case {
 	c.Exec = rapid.SampledFrom([]string{"local", "bigmachine", "bigmachine"}).Draw(t, "exec")
 	if c.Exec == "bigmachine" {
 		c.MC = rapid.IntRange(0, 3).Draw(t, "mc") == 0
+		c.One = rapid.IntRange(0, 2).Draw(t, "one") == 0
 	}
 	g := &genState{}
 	c.Ops = append(c.Ops, genRun(t, g))
@@ -499,6 +507,9 @@ func sigOf(c Case, err error) string {
 
 func classes(c Case) (cl []string, nt bool) {
 	seen := map[string]bool{"exec:" + c.Exec: true}
+	if c.One {
+		seen["one-machine"] = true
+	}
 	discarded, killed := false, false
 	var walk func(ops []Op)
 	walk = func(ops []Op) {
